@@ -55,7 +55,8 @@ def gen_tree(rnd, maxents=8, sizes=(0, 1, 2, 10, 10, 300), depth_bias=0.5):
             t.ents.append(("D", p)); t.dirs.append(p)
         else:
             tgt = rnd.choice(["a.txt", "../secret5.txt", "../../secret0.txt", "sub", "../root/a.txt", "nonexist", BASE + "/outer/secret5.txt", ".",
-                              "../rootx", "s2/..", "/"])
+                              "../rootx", "s2/..", "/", "../" * 12 + BASE + "/outer/secret5.txt", "../" * 6 + "x", "a:b", "x:/a.txt",
+                              "./a.txt", "sub/../a.txt"])
             t.ents.append(("L", p, tgt))
     return t
 
